@@ -20,7 +20,8 @@ Ltac updsimp :=
 (** a thread whose own record, links and ghost counters are untouched, and whose membership in
     the ghost lists is untouched, keeps its clause *)
 Lemma T_frame N s h s' h' u :
-  thr_at s' u = thr_at s u -> nx s' u = nx s u -> arv h' u = arv h u -> clv h' u = clv h u ->
+  thr_at s' u = thr_at s u -> (forall tp, cbk s u = CbPushCas tp -> nx s' u = nx s u) ->
+  arv h' u = arv h u -> clv h' u = clv h u ->
   gR h' = gR h -> ldr h' = ldr h ->
   (In u (arrs h') <-> In u (arrs h)) -> (In u (slp h') <-> In u (slp h)) ->
   (In u (acc h') <-> In u (acc h)) -> (In u (wk h') <-> In u (wk h)) ->
@@ -30,13 +31,14 @@ Lemma T_frame N s h s' h' u :
   T N s h u -> T N s' h' u.
 Proof.
   intros Hth Hnx Har Hcl HR Hl Ha Hs Hc Hw Hz Hk Hb HT.
-  unfold T in *. unfold mn, cbk in *. rewrite Hth, Hnx, Har, Hcl, HR, Hl.
+  unfold T in *. unfold mn, cbk in *. rewrite Hth, Har, Hcl, HR, Hl.
   destruct (main (thr_at s u)) eqn:E; try tauto.
   - (* BReset *)
     destruct Hb as [[Hb1 Hb2]|Hb]; [|exfalso; eapply Hb; reflexivity].
     rewrite Hb1, Hb2. exact HT.
   - (* Susp *)
-    destruct (cb (thr_at s u)); tauto.
+    destruct (cb (thr_at s u)) eqn:E2; try tauto.
+    rewrite (Hnx _ eq_refl). tauto.
 Qed.
 
 (** ---- small helpers ---- *)
@@ -117,5 +119,58 @@ Proof.
     intros HR. destruct (G3 HR) as [G3a G3b]. split; [|exact G3b]. rewrite G3a. unfold mn.
     destruct (Nat.eq_dec (ldr h) t) as [E|E].
     + rewrite E. rewrite Hme, Hth, Hm. reflexivity.
+    + rewrite Hoth; auto.
+Qed.
+
+(** ---- steps that change only the acting thread's record (and its call count / the popper's
+        snapshot): everything about the other threads and the lists is framed ---- *)
+Lemma inv_local N s h t th' cl' snap' :
+  Inv N s h -> t < N ->
+  length cl' = N -> (forall u, u <> t -> nth u cl' 0 = clv h u) ->
+  ~ In t (stk h) -> ~ In t (acc h) -> (In t (slp h) -> main th' = Susp) -> (In t (wk h) -> main th' = Done 0) ->
+  T N (set_thread s t th')
+      (mkG (gR h) (ar h) cl' (ldr h) (arrs h) (slp h) (acc h) (wk h) (zret h) (stk h) snap' (rets h)) t ->
+  (1 <= gR h -> ldr h = t ->
+   GL N (set_thread s t th')
+        (mkG (gR h) (ar h) cl' (ldr h) (arrs h) (slp h) (acc h) (wk h) (zret h) (stk h) snap' (rets h))) ->
+  (ldr h <> t -> snap' = snap h) ->
+  (ldr h = t -> in_release (main th') = in_release (mn s t)) ->
+  Inv N (set_thread s t th')
+        (mkG (gR h) (ar h) cl' (ldr h) (arrs h) (slp h) (acc h) (wk h) (zret h) (stk h) snap' (rets h)).
+Proof.
+  intros HI Ht Hcl1 Hcl2 Hn1 Hn2 Hn3 Hn4 HTt HGt Hsn Hrel.
+  destruct HI as [Hlen HT Harrs Hstk Hslp Hwk Hsum Hldr Hlog].
+  destruct Hlen as (L1 & L2 & L3 & L4 & L5 & L6).
+  assert (Hoth : forall x, x <> t -> thr_at (set_thread s t th') x = thr_at s x).
+  { intros x Hx. vw. updsimp. reflexivity. }
+  assert (Hme : thr_at (set_thread s t th') t = th').
+  { vw. updsimp. reflexivity. }
+  constructor; cbn [gR ar cl ldr arrs slp acc wk zret stk snap rets].
+  - cbn [set_thread thr nxt nthr]. rewrite !upd_length. repeat split; auto.
+  - intros u Hu. destruct (Nat.eq_dec u t) as [->|Hne]; [exact HTt|].
+    eapply T_frame; try apply (HT u Hu); try reflexivity; auto.
+    unfold clv. cbn [cl]. apply Hcl2; auto.
+  - exact Harrs.
+  - destruct Hstk as (S1 & S2 & S3 & S4). refine (conj _ (conj _ (conj _ _))); auto.
+    + intros x Hx. apply asleep_keep with (s := s); auto. apply Hoth. intros ->; auto.
+    + intros x Hx. split; [|apply S4; auto].
+      apply asleep_keep with (s := s); [|apply S4; auto]. apply Hoth. intros ->; auto.
+  - destruct Hslp as (S1 & S2). split; auto. intros x Hx. unfold mn.
+    destruct (Nat.eq_dec x t) as [->|Hne].
+    + rewrite Hme. destruct (S2 t Hx) as (A & B & C). auto.
+    + rewrite Hoth by auto. apply S2; auto.
+  - destruct Hwk as (S1 & S2). split; auto. intros x Hx. unfold mn.
+    destruct (Nat.eq_dec x t) as [->|Hne].
+    + rewrite Hme. destruct (S2 t Hx) as (A & B). auto.
+    + rewrite Hoth by auto. apply S2; auto.
+  - exact Hsum.
+  - intros HR. destruct (Nat.eq_dec (ldr h) t) as [E|E]; [apply HGt; auto|].
+    specialize (Hldr HR). eapply GL_frame; try apply Hldr; try reflexivity.
+    + unfold mn. rewrite Hoth; auto.
+    + cbn [snap]. auto.
+  - destruct Hlog as (G1 & G2 & G3). refine (conj G1 (conj G2 _)).
+    intros HR. destruct (G3 HR) as [G3a G3b]. split; [|exact G3b]. rewrite G3a. unfold mn at 2.
+    destruct (Nat.eq_dec (ldr h) t) as [E|E].
+    + rewrite E at 2. rewrite Hme. rewrite Hrel by auto. rewrite E. reflexivity.
     + rewrite Hoth; auto.
 Qed.
